@@ -1,1 +1,277 @@
-import GeomV.C18.Lemmas
+import GeomV.C18.Loop
+/-!
+# C18 — property theorems (interleaving model of encoding/osm extract / Filter / Check)
+
+Quantifiers: every document `doc : List Obj` (any element order, any reference structure – shared
+nodes, cycles, relations of relations, dangling references), every keep function of the shape
+`base o || (dyn o && one of o's references is already kept)` (KeepTags, KeepAll, KeepBounds are
+instances), every number of workers `W ≥ 1`, every schedule (a list of scheduler choices per pass;
+each atomic step = one lock-protected region of extract.go).  No bound on sizes.
+
+* `closure_least`, `closure_closed`   the executable spec `closure` used by the judge: below every
+                                      closed set, and closed whenever the run-time check says so.
+* `C18_sound`                 every configuration reachable under ANY interleaving (also with the
+                              original loop condition) has kept ⊆ every closed set (⊆ the closure).
+* `C18_complete`              fixed `extract` terminates and returns exactly the least closed set.
+* `C18_terminates`            ... within `|doc| + 2` passes (the fuel is never exhausted).
+* `C18_schedule_independent`  the result does not depend on the schedule nor on `W` (GOMAXPROCS).
+* `C18_check`                 no dangling reference in the document → `Check` passes on the result.
+* `C18_filter`                `Filter` (original loop condition, Go map order = any order per pass) with a
+                              state-independent keep function (by tags, keep-all): terminates, returns a
+                              sub-list of its input that is the least closed set, hence closed under
+                              references; independent of map order; idempotent.
+* `C18_original_condition_incomplete_seq / _par`  the negation for the loop condition before the
+                              fix: concrete document + schedule where `extract` stops early.
+-/
+set_option linter.unusedSimpArgs false
+set_option linter.unusedVariables false
+namespace GeomV.C18
+
+/-! ## soundness over all reachable configurations -/
+
+/-- configurations reachable by `extract`/`Filter` under any interleaving and any pass orders -/
+inductive Reach (e : Env) (doc : Doc) : PCfg → Prop
+  | init (order : List Obj) : (∀ o, o ∈ order ↔ o ∈ doc) → Reach e doc (startPass order State.init)
+  | step {c c' : PCfg} : Reach e doc c → PStep e c c' → Reach e doc c'
+  | next {c : PCfg} (order : List Obj) : (∀ o, o ∈ order ↔ o ∈ doc) → Reach e doc c →
+      c.queue = [] → AllIdle c → c.st.flag = true → Reach e doc (startPass order c.st)
+
+theorem Reach.sinv {e : Env} {doc : Doc} {C : Ref → Prop} (hC : Closed doc e.k C) {c : PCfg}
+    (h : Reach e doc c) : SInv doc e.k C c := by
+  induction h with
+  | init order ho => exact SInv.start ⟨by simp [State.init], by simp [State.init]⟩ (fun o h => (ho o).1 h)
+  | step _ hs ih => exact SInv.step hC _ _ hs ih
+  | next order ho _ _ _ _ ih => exact SInv.start ⟨ih.state.kept, ih.state.need⟩ (fun o h => (ho o).1 h)
+
+/-- **C18_sound** (clause "returns … the least set": nothing outside it is ever stored).  For every
+loop condition, keep function, worker count and interleaving, every reachable kept set is inside
+every closed set — in particular inside the closure — and consists of objects of the document. -/
+theorem C18_sound (e : Env) (doc : Doc) (c : PCfg) (h : Reach e doc c)
+    (C : Ref → Prop) (hC : Closed doc e.k C) : ∀ r ∈ c.st.kept, C r ∧ Present doc r :=
+  (h.sinv hC).state.kept
+
+/-- the passes executed by `runG` are reachable configurations (so `C18_sound` speaks about them) -/
+theorem loopG_reach {e : Env} {doc : Doc} (hW : 0 < e.W) :
+    ∀ (n : Nat) (ps : List (List Obj × List Nat)) (s s' : State),
+      Reach e doc (startPass (nextPass doc ps).1 s) → loopG e doc n ps s = .ok s' →
+      ∃ c, Reach e doc c ∧ c.st = s'
+  | 0, _, _, _, _, h => by simp [loopG] at h
+  | n+1, ps, s, s', hr, h => by
+    simp only [loopG] at h
+    have hr' : Reach e doc (runPass e (nextPass doc ps).1 (nextPass doc ps).2 s) :=
+      runPass_ind (I := Reach e doc) (fun c c' hs hc => hc.step hs) _ _ _ hr
+    have hfin := runPass_final e hW (nextPass doc ps).1 (nextPass doc ps).2 s
+    by_cases hf : (runPass e (nextPass doc ps).1 (nextPass doc ps).2 s).st.flag = true
+    · simp only [hf, if_true] at h
+      exact loopG_reach hW n ps.tail _ s'
+        (Reach.next _ (nextPass_mem doc ps.tail) hr' hfin.1 hfin.2 hf) h
+    · have hf' : (runPass e (nextPass doc ps).1 (nextPass doc ps).2 s).st.flag = false := by
+        simpa using hf
+      simp only [hf', Bool.false_eq_true, if_false] at h
+      cases h
+      exact ⟨_, hr', rfl⟩
+
+theorem C18_sound_run (e : Env) (hW : 0 < e.W) (doc : Doc) (ps : List (List Obj × List Nat))
+    (s : State) (h : runG e doc ps = .ok s) (C : Ref → Prop) (hC : Closed doc e.k C) :
+    ∀ r ∈ s.kept, C r ∧ Present doc r := by
+  obtain ⟨c, hc, rfl⟩ := loopG_reach hW _ ps _ s (Reach.init _ (nextPass_mem doc ps)) h
+  exact C18_sound e doc c hc C hC
+
+/-! ## completeness, termination, schedule independence -/
+
+theorem extractRun_eq {fos : Bool} {k : Keep} {W : Nat} {doc : Doc} {sched : List (List Nat)}
+    {s : State} (h : runG ⟨fos, k, W⟩ doc (sched.map fun ch => (doc, ch)) = .ok s) :
+    extractRun fos k W doc sched = .ok (doc.filter fun o => decide (o.key ∈ s.kept)) := by
+  simp [extractRun, h, Except.map, result, State.has]
+
+/-- **C18_complete** (clause "returns exactly the least set that contains every selected object and
+everything they reference, transitively").  The fixed `extract` (a store requests another pass)
+terminates and its result is the document filtered by THE least closed set, for every keep function
+of the modelled shape, every `W ≥ 1` and every schedule. -/
+theorem C18_complete (k : Keep) (W : Nat) (hW : 0 < W) (doc : Doc) (hu : uniqueKeys doc)
+    (sched : List (List Nat)) :
+    ∃ K : List Ref, IsLeastClosed doc k (· ∈ K) ∧
+      extractRun true k W doc sched = .ok (doc.filter fun o => decide (o.key ∈ K)) := by
+  obtain ⟨s, hs, hl⟩ := runG_least (e := ⟨true, k, W⟩) (.inl rfl) hW hu (sched.map fun ch => (doc, ch))
+  exact ⟨s.kept, hl, extractRun_eq hs⟩
+
+/-- the same for the ORIGINAL loop condition when the keep function does not read the state
+(KeepTags, KeepAll): those were complete before the fix as well. -/
+theorem C18_complete_static (k : Keep) (hk : Static k) (W : Nat) (hW : 0 < W) (doc : Doc)
+    (hu : uniqueKeys doc) (sched : List (List Nat)) :
+    ∃ K : List Ref, IsLeastClosed doc k (· ∈ K) ∧
+      extractRun false k W doc sched = .ok (doc.filter fun o => decide (o.key ∈ K)) := by
+  obtain ⟨s, hs, hl⟩ := runG_least (e := ⟨false, k, W⟩) (.inr hk) hW hu (sched.map fun ch => (doc, ch))
+  exact ⟨s.kept, hl, extractRun_eq hs⟩
+
+/-- **C18_terminates**: the pass loop of the fixed `extract` never needs more than `|doc| + 2`
+passes (the model's fuel is not exhausted), whatever the schedule. -/
+theorem C18_terminates (k : Keep) (W : Nat) (hW : 0 < W) (doc : Doc) (hu : uniqueKeys doc)
+    (sched : List (List Nat)) : ∃ r, extractRun true k W doc sched = .ok r := by
+  obtain ⟨K, _, h⟩ := C18_complete k W hW doc hu sched
+  exact ⟨_, h⟩
+
+theorem filter_least_eq {doc : Doc} {k : Keep} {K K' : List Ref}
+    (h : IsLeastClosed doc k (· ∈ K)) (h' : IsLeastClosed doc k (· ∈ K')) :
+    (doc.filter fun o => decide (o.key ∈ K)) = doc.filter fun o => decide (o.key ∈ K') := by
+  apply List.filter_congr
+  intro o _
+  have := h.unique h' o.key
+  simp [this]
+
+/-- **C18_schedule_independent** (clause "does not depend on goroutine interleaving or GOMAXPROCS").
+Any two runs of the fixed `extract` on the same document and keep function — different worker counts,
+different schedules — return the same value. -/
+theorem C18_schedule_independent (k : Keep) (doc : Doc) (hu : uniqueKeys doc)
+    (W₁ W₂ : Nat) (h₁ : 0 < W₁) (h₂ : 0 < W₂) (s₁ s₂ : List (List Nat)) :
+    extractRun true k W₁ doc s₁ = extractRun true k W₂ doc s₂ := by
+  obtain ⟨K₁, hl₁, e₁⟩ := C18_complete k W₁ h₁ doc hu s₁
+  obtain ⟨K₂, hl₂, e₂⟩ := C18_complete k W₂ h₂ doc hu s₂
+  rw [e₁, e₂, filter_least_eq hl₁ hl₂]
+
+/-! ## Check -/
+
+theorem check_of_closed {doc : Doc} {k : Keep} {K : List Ref} (hcl : Closed doc k (· ∈ K))
+    (hd : noDangling doc) : check (doc.filter fun o => decide (o.key ∈ K)) = true := by
+  simp only [check, List.all_eq_true, List.any_eq_true, List.mem_filter, decide_eq_true_eq,
+    beq_iff_eq]
+  rintro o ⟨ho, hk⟩ r hr
+  have hp := hd o ho r hr
+  have hrK := hcl.refs o ho hk r hr hp
+  obtain ⟨o', ho', rfl⟩ := hp
+  exact ⟨o', ⟨ho', hrK⟩, rfl⟩
+
+/-- **C18_check** (clause "the result passes Check whenever the document itself has no dangling
+references"), for every schedule and worker count. -/
+theorem C18_check (k : Keep) (W : Nat) (hW : 0 < W) (doc : Doc) (hu : uniqueKeys doc)
+    (hd : noDangling doc) (sched : List (List Nat)) :
+    ∃ r, extractRun true k W doc sched = .ok r ∧ check r = true := by
+  obtain ⟨K, hl, h⟩ := C18_complete k W hW doc hu sched
+  exact ⟨_, h, check_of_closed hl.1 hd⟩
+
+/-! ## Filter -/
+
+theorem filterRun_eq {k : Keep} {d : List Obj} {orders : List (List Obj)} {s : State}
+    (h : runG ⟨false, k, 1⟩ d (orders.map fun o => (o, [])) = .ok s) :
+    filterRun k d orders = .ok (d.filter fun o => decide (o.key ∈ s.kept)) := by
+  simp [filterRun, h, Except.map, result, State.has]
+
+theorem filterRun_least (k : Keep) (hk : Static k) (d : List Obj) (hu : uniqueKeys d)
+    (orders : List (List Obj)) :
+    ∃ K : List Ref, IsLeastClosed d k (· ∈ K) ∧
+      filterRun k d orders = .ok (d.filter fun o => decide (o.key ∈ K)) := by
+  obtain ⟨s, hs, hl⟩ := runG_least (e := ⟨false, k, 1⟩) (.inr hk) Nat.one_pos hu
+    (orders.map fun o => (o, []))
+  exact ⟨s.kept, hl, filterRun_eq hs⟩
+
+theorem uniqueKeys_filter {d : List Obj} (hu : uniqueKeys d) (p : Obj → Bool) :
+    uniqueKeys (d.filter p) := fun o ho o' ho' h =>
+  hu o (List.mem_filter.1 ho).1 o' (List.mem_filter.1 ho').1 h
+
+/-- selecting again from a least closed selection changes nothing (state-independent keep) -/
+theorem least_restrict {d : List Obj} {k : Keep} (hk : Static k) {K K' : List Ref}
+    (hK : IsLeastClosed d k (· ∈ K))
+    (hK' : Closed (d.filter fun o => decide (o.key ∈ K)) k (· ∈ K')) :
+    ∀ o ∈ d, o.key ∈ K → o.key ∈ K' := by
+  have hcl : Closed d k (fun r => r ∈ K' ∧ r ∈ K) := by
+    constructor
+    · intro o ho hsel
+      have hb : k.base o = true := by
+        rcases hsel with hb | ⟨hd, _⟩
+        · exact hb
+        · simp [hk o] at hd
+      have hoK : o.key ∈ K := hK.1.sel o ho (.inl hb)
+      exact ⟨hK'.sel o (by simp [ho, hoK]) (.inl hb), hoK⟩
+    · rintro o ho ⟨hoK', hoK⟩ r hr hp
+      have hrK : r ∈ K := hK.1.refs o ho hoK r hr hp
+      refine ⟨hK'.refs o (by simp [ho, hoK]) hoK' r hr ?_, hrK⟩
+      obtain ⟨o', ho', rfl⟩ := hp
+      exact ⟨o', by simp [ho', hrK], rfl⟩
+  intro o ho hoK
+  exact (hK.2 _ hcl _ hoK).1
+
+/-- **C18_filter** (clause "Filter by tags (or keep-all) is idempotent, closed under references and
+never returns more than it was given").  `Filter` is modelled with its own (original) loop
+condition and an arbitrary visiting order in every pass (Go map iteration).  For a keep function
+that does not read the state and an input `d` with unique ids:
+(1) it terminates and returns a sub-list of `d` that is the least closed selection — so it is closed
+under the references present in `d`, and passes `Check` when `d` has no dangling reference;
+(2) the result does not depend on the map iteration orders;
+(3) filtering the result again returns the result. -/
+theorem C18_filter (k : Keep) (hk : Static k) (d : List Obj) (hu : uniqueKeys d)
+    (orders : List (List Obj)) :
+    ∃ f, filterRun k d orders = .ok f ∧ List.Sublist f d ∧
+      (∃ K : List Ref, IsLeastClosed d k (· ∈ K) ∧ f = d.filter fun o => decide (o.key ∈ K)) ∧
+      (∀ o ∈ f, ∀ r ∈ o.refs, Present d r → Present f r) ∧
+      (noDangling d → check f = true) ∧
+      (∀ orders', filterRun k d orders' = .ok f) ∧
+      (∀ orders', filterRun k f orders' = .ok f) := by
+  obtain ⟨K, hl, h⟩ := filterRun_least k hk d hu orders
+  refine ⟨_, h, List.filter_sublist, ⟨K, hl, rfl⟩, ?_, check_of_closed hl.1, ?_, ?_⟩
+  · intro o ho r hr hp
+    simp only [List.mem_filter, decide_eq_true_eq] at ho
+    have hrK := hl.1.refs o ho.1 ho.2 r hr hp
+    obtain ⟨o', ho', rfl⟩ := hp
+    exact ⟨o', by simp [ho', hrK], rfl⟩
+  · intro orders'
+    obtain ⟨K', hl', h'⟩ := filterRun_least k hk d hu orders'
+    rw [h', filter_least_eq hl' hl]
+  · intro orders'
+    obtain ⟨K', hl', h'⟩ := filterRun_least k hk _ (uniqueKeys_filter hu _) orders'
+    rw [h']
+    congr 1
+    rw [List.filter_eq_self]
+    intro o ho
+    simp only [List.mem_filter, decide_eq_true_eq] at ho
+    simpa using least_restrict hk hl hl'.1 o ho.1 ho.2
+
+theorem static_keepAll : Static keepAll := fun _ => rfl
+theorem static_keepTags (want : List (Nat × List Nat)) : Static (keepTags want) := fun _ => rfl
+
+/-! ## the original loop condition is incomplete (negation on the model, concrete witnesses) -/
+
+def n1 : Obj := ⟨⟨.node, 1⟩, [], true, []⟩
+def n2 : Obj := ⟨⟨.node, 2⟩, [], false, []⟩
+def w1 : Obj := ⟨⟨.way, 1⟩, [⟨.node, 1⟩, ⟨.node, 2⟩], false, []⟩
+def w1' : Obj := ⟨⟨.way, 1⟩, [⟨.node, 1⟩], false, []⟩
+
+def keys : Except Fault (List Obj) → Option (List Ref)
+  | .ok r => some (r.map (·.key))
+  | .error _ => none
+
+/-- **sequential** witness (DESIGN 1.1 (i)): the way precedes its nodes in the file; one worker.
+With the original condition (`fos = false`) `extract` keeps only `n1`; the least closed set (and the
+fixed `extract`) has all three objects. -/
+theorem C18_original_condition_incomplete_seq :
+    keys (extractRun false keepBounds 1 [w1, n1, n2] []) = some [⟨.node, 1⟩] ∧
+    keys (extractRun true keepBounds 1 [w1, n1, n2] []) = some [⟨.way, 1⟩, ⟨.node, 1⟩, ⟨.node, 2⟩] ∧
+    (⟨.way, 1⟩ : Ref) ∈ closure [w1, n1, n2] keepBounds := by
+  decide
+
+/-- **concurrent** witness (DESIGN 1.1 (ii)): nodes first, two workers.  Worker 0 dequeues `n1` and
+decides to keep it; before it stores, worker 1 dequeues `w1'`, reads "w1' not stored", then reads
+"n1 not kept" and drops `w1'`; then worker 0 stores `n1`.  The original condition ends the loop with `{n1}`; the sequential schedule gives `{n1, w1'}`.
+So the original `extract` is schedule dependent. -/
+theorem C18_original_condition_incomplete_par :
+    keys (extractRun false keepBounds 2 [n1, w1'] [[0, 0, 1, 1, 1, 0]]) = some [⟨.node, 1⟩] ∧
+    keys (extractRun false keepBounds 2 [n1, w1'] []) = some [⟨.node, 1⟩, ⟨.way, 1⟩] ∧
+    keys (extractRun true keepBounds 2 [n1, w1'] [[0, 0, 1, 1, 1, 0]]) = some [⟨.node, 1⟩, ⟨.way, 1⟩] := by
+  decide
+
+/-! ## non-vacuity of the hypotheses -/
+
+example : uniqueKeys [w1, n1, n2] := by
+  intro o ho o' ho' h
+  simp at ho ho'
+  rcases ho with rfl | rfl | rfl <;> rcases ho' with rfl | rfl | rfl <;> first | rfl | (simp [w1, n1, n2] at h)
+example : noDangling [w1, n1, n2] := by
+  intro o ho r hr
+  simp at ho
+  rcases ho with rfl | rfl | rfl <;> simp [w1, n1, n2, Present] at hr ⊢
+  rcases hr with rfl | rfl <;> simp
+example : Closed [w1, n1, n2] keepBounds (fun _ => True) := closed_univ _ _
+example : Mode ⟨true, keepBounds, 4⟩ := .inl rfl
+example : ∃ c, Reach ⟨true, keepBounds, 2⟩ [w1, n1, n2] c :=
+  ⟨_, Reach.init [w1, n1, n2] (fun _ => Iff.rfl)⟩
+
+end GeomV.C18
